@@ -250,7 +250,8 @@ func (t *basicTaskBase) ensureBasicTaskKilled() (err error) {
 	if t.Tci.ControlMode == controlmode.HOOK {
 		return nil
 	}
-	if t.taskCmd.ProcessState.Exited() {
+	// ProcessState is nil until Wait() has returned, i.e. while the child is still running
+	if t.taskCmd.ProcessState != nil && t.taskCmd.ProcessState.Exited() {
 		return nil
 	}
 
